@@ -574,6 +574,11 @@ Section cmd_rel.
     cbn. eapply cs_trans; [apply cs_core, H1|]. eapply cs_trans; [apply cs_core, H2|]. apply cs_core, H3.
   Qed.
 
+  (* the queue of detected changes goes out (first step of the host's CSendInitialSync since the
+     repair of S21) *)
+  Lemma cs_react_comp b pr : cmd_step pr (react_on_changed_components b pr).
+  Proof. unfold react_on_changed_components. cbv zeta. cs_go. Qed.
+
   (* the fold of a fix command *)
   Lemma fix_fold_alive (now : tick) (e0 : ent) (cs : list tyid) : forall (a : peer_state) (en0 : entity),
     p_ents a !! e0 = Some en0 ->
@@ -651,7 +656,9 @@ Section cmd_rel.
       eapply cs_trans; [apply cs_set_parent_twice|]. apply cs_core; core2_tac.
     - cbv zeta. destruct from; cs_go.
     - cs_go.
-    - pose proof (cs_build_full_sync pr) as H. destruct (build_full_sync pr) as [pr1 ms]; cbn in H.
+    - cbv zeta. eapply cs_trans; [apply (cs_react_comp true)|].
+      set (pr0 := react_on_changed_components true pr).
+      pose proof (cs_build_full_sync pr0) as H. destruct (build_full_sync pr0) as [pr1 ms]; cbn in H.
       eapply cs_trans; [exact H|]. cs_go.
     - pose proof (cs_build_full_sync pr) as H. destruct (build_full_sync pr) as [pr1 ms]; cbn in H.
       eapply cs_trans; [exact H|]. cs_go.
